@@ -152,13 +152,6 @@ Qed.
 Lemma members_kids ns i x lb e k r c : members_ok ns (T i x lb e (k :: r)) -> In c (k :: r) -> members_ok ns c.
 Proof. intros M Hc a Ha. apply M. rewrite has_node. apply existsb_exists. exists c. auto. Qed.
 
-Lemma dget_app {V} k (l1 l2 : dict V) :
-  dget k (l1 ++ l2) = match dget k l1 with Some v => Some v | None => dget k l2 end.
-Proof. induction l1 as [|[k' v'] r IH]; simpl; [reflexivity|]. destruct (Z.eqb k k'); [reflexivity | exact IH]. Qed.
-
-Lemma dkeys_app {V} (l1 l2 : dict V) : dkeys (l1 ++ l2) = dkeys l1 ++ dkeys l2.
-Proof. unfold dkeys. apply map_app. Qed.
-
 Definition enc_go (ns : nspace) : list tree -> res (dict Z * Z) :=
   fix go (ks : list tree) : res (dict Z * Z) :=
     match ks with
